@@ -119,6 +119,57 @@ pub proof fn lemma_pairs_step(seg: Seq<CompiledItem>, ks: Seq<Seq<CompiledItem>>
 }
 """
 
+CALL_SPEC = r"""
+pub enum CallableDestination { Standard { load_instruction: CompiledItem, self_register: Option<VString> }, ToSelf }
+pub struct Callable { pub destination: CallableDestination, pub function_arguments: Vec<ValueV> }       // FunctionArguments(Vec<Value>): iter() is the slice iterator
+// `x.compile(state).unwrap()`: the argument's compile result is unwrapped (a compile error here would be a compiler panic: C16, not claimed by this unit)
+#[verifier::external_body]
+pub fn compile_value_unwrapped(v: &ValueV, s: &mut State) -> (r: Vec<CompiledItem>)
+    ensures count(final(s)) == count(old(s)), writes_ge(r@, count(old(s)))
+{ unimplemented!() }
+pub open spec fn is_load_reg(it: CompiledItem, r: int) -> bool { is_instr(it, LOAD_FAST) && nargs(it) == 1 && argn(it, 0) == r }
+// the argument part: concatenation of (code_i ++ [store_fast c0+i])
+pub open spec fn args_ok(seg: Seq<CompiledItem>, codes: Seq<Seq<CompiledItem>>, c0: int) -> bool decreases codes.len() {
+    if codes.len() == 0 { seg.len() == 0 } else {
+        let c = codes.last();
+        &&& seg.len() >= c.len() + 1
+        &&& seg.subrange(seg.len() - c.len() - 1, seg.len() - 1) == c                 // this argument's code, once
+        &&& is_store_reg(seg.last(), c0 + codes.len() - 1)                             // its value is parked in the next consecutive register
+        &&& args_ok(seg.subrange(0, seg.len() - c.len() - 1), codes.drop_last(), c0)   // after all earlier arguments
+    }
+}
+pub proof fn lemma_args_step(seg: Seq<CompiledItem>, codes: Seq<Seq<CompiledItem>>, c: Seq<CompiledItem>, st: CompiledItem, c0: int)
+    requires args_ok(seg, codes, c0), is_store_reg(st, c0 + codes.len())
+    ensures args_ok(seg + c + seq![st], codes.push(c), c0)
+{
+    let s2 = seg + c + seq![st];
+    assert(codes.push(c).drop_last() =~= codes);
+    assert(s2.subrange(s2.len() - c.len() - 1, s2.len() - 1) =~= c);
+    assert(s2.subrange(0, s2.len() - c.len() - 1) =~= seg);
+}
+// the end of a call: `call_self`, or [ld_self NAME] LOAD call
+pub open spec fn tail_ok(t: Seq<CompiledItem>, d: CallableDestination) -> bool {
+    match d {
+        CallableDestination::ToSelf => t.len() == 1 && is_instr(t[0], CALL_SELF),
+        CallableDestination::Standard { load_instruction, self_register: None } => t.len() == 2 && t[0] == load_instruction && is_instr(t[1], CALL),
+        CallableDestination::Standard { load_instruction, self_register: Some(name) } =>
+            t.len() == 3 && is_instr(t[0], LD_SELF) && nargs(t[0]) == 1 && t[0]->arguments@[0] == name && t[1] == load_instruction && is_instr(t[2], CALL),
+    }
+}
+pub open spec fn call_post(out: Seq<CompiledItem>, c0: int, n: int, d: CallableDestination) -> bool {
+    exists|codes: Seq<Seq<CompiledItem>>, a: int| #[trigger] call_shape(out, codes, a, c0, n) && tail_ok(out.subrange(a + n, out.len() as int), d)
+}
+// out = args ++ [load_fast c0 .. load_fast c0+n-1] ++ tail
+pub open spec fn call_shape(out: Seq<CompiledItem>, codes: Seq<Seq<CompiledItem>>, a: int, c0: int, n: int) -> bool {
+    &&& codes.len() == n && 0 <= a && a + n <= out.len()
+    &&& args_ok(out.subrange(0, a), codes, c0)
+    // argument j's code runs while arguments 0..j-1 are parked in c0..c0+j-1: it writes none of them
+    &&& (forall|j: int| 0 <= j < n ==> writes_ge(#[trigger] codes[j], c0 + j))
+    // then the parked values are pushed back in argument order
+    &&& (forall|i: int| 0 <= i < n ==> is_load_reg(#[trigger] out[a + i], c0 + i))
+}
+"""
+
 
 def build(repo):
     src = Source(repo)
@@ -187,9 +238,58 @@ def build(repo):
               "assert(is_store_reg(result@[1], gm)); assert(is_instr(result@.last(), LOAD_FAST)); assert(pairs_ok(result@.subrange(2, result@.len() - 1), ks, vs, gm, gk)); assert(map_shape(result@, ks, vs, gm, gk, c0)); assert(is_instr(result@[0], MAKE_MAP) && nargs(result@[0]) == 1 && argn(result@[0], 0) == self.initializer.map@.len()); assert(ks.len() == self.initializer.map@.len()); }"), "result } )"], count=1, why="").apply(bm, log)
     check_closed(bm, "Map::compile")
     txt_m = render(bm, 2)
+
+    # ---------------- Callable::compile
+    fc = src.fn(CALL, "compile", "impl Compile for Callable < '_ >")
+    invc = ("invariant verif_k_c <= self.function_arguments.len(), count(state) == c0 + verif_k_c, codes.len() == verif_k_c, register_count == verif_k_c, "
+            "register_start == (if verif_k_c == 0 { None::<usize> } else { Some(c0 as usize) }), "
+            "forall|j: int| 0 <= j < verif_k_c ==> writes_ge(#[trigger] codes[j], c0 + j), args_init@ == seg, args_ok(seg, codes, c0) "
+            "decreases self.function_arguments.len() - verif_k_c")
+    def flat_map(b):
+        n, x = text(b["n"]), text(b["x"])
+        return [f"let mut {n} : Vec < CompiledItem > = Vec :: new ( ) ;", "let mut verif_k_c : usize = 0 ; while verif_k_c < self . function_arguments . len ( )", G(invc),
+                "{", f"let {x} = & self . function_arguments [ verif_k_c ] ; verif_k_c += 1 ; let mut verif_chunk = {{", *b["body"], "} ;",
+                G("proof { let ghost oseg = seg; let ghost ocodes = codes; seg = seg + vi + seq![verif_chunk@.last()]; codes = codes.push(vi); lemma_args_step(oseg, ocodes, vi, verif_chunk@.last(), c0); "
+                  "assert(verif_chunk@ =~= vi + seq![verif_chunk@.last()]); }"),
+                f"{n} . append ( & mut verif_chunk ) ;", "}"]
+    invl = ("invariant reg_lo <= register_idx <= reg_hi, reg_lo == c0, reg_hi == c0 + nargs_g, count(state) == c0 + nargs_g, codes.len() == nargs_g, "
+            "args_init@.len() == seg.len() + (register_idx - reg_lo), args_init@.subrange(0, seg.len() as int) == seg, "
+            "forall|i: int| 0 <= i < register_idx - reg_lo ==> is_load_reg(#[trigger] args_init@[seg.len() + i], c0 + i) decreases reg_hi - register_idx")
+    def range_loop(b):
+        i = text(b["i"])
+        return [f"let reg_lo = {text(b['lo'])} ; let reg_hi = {text(b['hi'])} ; let mut {i} = reg_lo ; while {i} < reg_hi", G(invl), "{", *b["body"],
+                G("proof { assert(args_init@.subrange(0, seg.len() as int) =~= seg); }"), f"{i} += 1 ;", "}"]
+    rules_c = [
+        Rule("R9", "# [ cfg ( feature = \"debug\" ) ] { $$b }", "", why="cfg(feature = \"debug\") is off in the default build: block not compiled"),
+        Rule("R1", "unsafe { $$e }", "{ $$e }", why="unsafe block marker dropped: the callee's contract carries what the caller must guarantee"),
+        Rule("R2", "let mut $n : Vec < CompiledItem > = self . function_arguments . iter ( ) . flat_map ( | $x | { $$body } ) . collect ( ) ;", flat_map, count=1,
+             why="iter().flat_map(f).collect(): the closure's results concatenated in iteration order (closure run once per item)"),
+        Rule("R8", "x . compile ( state ) . unwrap ( )", "compile_value_unwrapped ( x , state )", count=1, why="child Value::compile abstract; unwrap() of its result: see the callee's note"),
+        Rule("R6", "state . poll_temporary_register_ghost ( )", "poll_temporary_register_ghost ( state )", why="register allocator abstract"),
+        Rule("R6", "state . free_many_temporary_registers ( $$a )", "free_many_temporary_registers ( state , $$a )", why="register allocator abstract"),
+        Rule("R6", "TemporaryRegister :: new_ghost_register ( $$a )", "new_ghost_register ( $$a )", why="ghost register constructor"),
+        Rule("R1", "argument_register . id", "reg_id_of ( & argument_register )", why="TemporaryRegister.id field"),
+        r_instruction(ids),
+        Rule("R2", "for $i in $lo .. $$hi { $$body }", range_loop, count=1, why="for over a range -> counted while"),
+        Rule("R1", "load_instruction . clone ( )", "clone_item ( load_instruction )", why="CompiledItem::clone"),
+    ]
+    bc = translate(fc["body"], rules_c, log, "Callable::compile")
+    bc = Rule("R11", "value_init . push ( mk_instr ( $$a ) ) ;", [G("proof { vi = value_init@; }"), "value_init . push ( mk_instr ( $$a ) ) ;"], count=1, why="").apply(bc, log)
+    bc = Rule("R11", "if let Some ( register_start ) = register_start {", [G("let ghost nargs_g: int = self.function_arguments@.len() as int; proof { assert(args_init@.subrange(0, seg.len() as int) =~= seg); }"), "if let Some ( register_start ) = register_start {"], count=1, why="").apply(bc, log)
+    bc = Rule("R11", "free_many_temporary_registers ( state , $$n ) ;", ["free_many_temporary_registers ( state , $$n ) ;",
+              G("proof { assert(args_init@.subrange(0, seg.len() as int) =~= seg); assert(call_shape(args_init@, codes, seg.len() as int, c0, nargs_g)); }")], count=1, why="").apply(bc, log)
+    exit_hint = G("proof { assert(args_init@.subrange(0, (seg.len() as int)) =~= seg); assert(call_shape(args_init@, codes, (seg.len() as int), c0, nargs_g)); "
+                  "let t = args_init@.subrange((seg.len() as int) + nargs_g, args_init@.len() as int); assert(t.len() == args_init@.len() - (seg.len() as int) - nargs_g); "
+                  "assert(forall|i: int| 0 <= i < t.len() ==> t[i] == args_init@[(seg.len() as int) + nargs_g + i]); assert(tail_ok(t, self.destination)); assert(call_post(args_init@, c0, nargs_g, self.destination)); }")
+    bc = Rule("R11", "return Ok ( args_init ) ;", [exit_hint, "return Ok ( args_init ) ;"], count=1, why="").apply(bc, log)
+    if bc[-4:] != ["Ok", "(", "args_init", ")"]:
+        raise Undecided("Callable::compile: final `Ok(args_init)` not found")
+    bc = bc[:-4] + [exit_hint] + bc[-4:]
+    check_closed(bc, "Callable::compile")
+    txt_c = render(bc, 2)
     # anchor the ghost state after the head of the output is built
     gen = header(log, f"{LIST}: List::compile") + prelude("compile.rs").replace("pub struct CompilationState;", "") + \
-        opcode_consts(ids, ["make_vector", "store_fast", "store_skip", "vec_op", "delete_name_reference_scoped", "load_fast", "make_map", "fast_map_insert", "call", "call_self", "ld_self"]) + SPEC + LIST_SPEC + MAP_SPEC + f"""
+        opcode_consts(ids, ["make_vector", "store_fast", "store_skip", "vec_op", "delete_name_reference_scoped", "load_fast", "make_map", "fast_map_insert", "call", "call_self", "ld_self"]) + SPEC + LIST_SPEC + MAP_SPEC + CALL_SPEC + f"""
 pub fn vec2(a: CompiledItem, b: CompiledItem) -> (r: Vec<CompiledItem>) ensures r@ == seq![a, b] {{ let mut v = Vec::new(); v.push(a); v.push(b); v }}
 // the element part built so far: concatenation of (code_i ++ [vec_op +R])
 pub open spec fn elems_ok(seg: Seq<CompiledItem>, codes: Seq<Seq<CompiledItem>>, r: int) -> bool decreases codes.len() {{
@@ -263,14 +363,34 @@ impl Map {{
 {txt_m}
     }}
 }}
+
+impl Callable {{
+    //@ OBL C15.call.layout
+    #[verifier::loop_isolation(false)]
+    pub fn compile(&self, state: &mut State) -> (r: Result<Vec<CompiledItem>, VErr>)
+        requires self.function_arguments@.len() < 0x1000_0000, 0 <= count(old(state)) < 0x1000_0000
+        ensures
+            count(final(state)) == count(old(state)),
+            // arguments left to right, each compiled exactly once and parked in consecutive registers c0, c0+1, ..; argument j's code writes
+            // none of the registers holding arguments 0..j-1; then the values are pushed back in order, then the callee is loaded and called
+            r is Ok && call_post(r->Ok_0@, count(old(state)), self.function_arguments@.len() as int, self.destination),
+    {{
+        let ghost c0 = count(state);
+        let ghost mut codes: Seq<Seq<CompiledItem>> = Seq::empty();
+        let ghost mut seg: Seq<CompiledItem> = Seq::empty();
+        let ghost mut vi: Seq<CompiledItem> = Seq::empty();
+{txt_c}
+    }}
+}}
 }} // verus!
 fn main() {{}}
 """
-    obls = [Obl("C15.map.layout", ["C15"], fn="Map::compile", desc="Map::compile: make_map n; store_fast M; per pair, in order: key code, store_fast K, value code, fast_map_insert M K; load_fast M; no key/value code writes M or K"),
+    obls = [Obl("C15.call.layout", ["C15"], fn="Callable::compile", desc="Callable::compile: per argument, in order and exactly once, its code then store_fast to the next consecutive register; no later argument's code writes an earlier argument's register; values reloaded in order; then [ld_self] load call / call_self; registers released"),
+            Obl("C15.map.layout", ["C15"], fn="Map::compile", desc="Map::compile: make_map n; store_fast M; per pair, in order: key code, store_fast K, value code, fast_map_insert M K; load_fast M; no key/value code writes M or K"),
             Obl("C15.list.layout", ["C15"], fn="List::compile", desc="List::compile: make_vector n; store_fast R; then for each element, in order and exactly once, its code followed by vec_op +R; no element's code writes R; register released")]
     return gen, obls, log
 
 
-UNITS = [VUnit("c15_seq", ["C15"], "list literals: element order, each once, list register undisturbed", build)]
+UNITS = [VUnit("c15_seq", ["C15"], "list / map literals and call arguments: order, each once, holding registers undisturbed", build)]
 UNITS[0].assumes = ["child Value::compile is an abstract callee satisfying the register frame contract (writes only registers handed out after its start; counter restored) -- the contract C15.binop.layout proves of compile_depth's BinOp arm",
                     "register allocator abstract (poll = counter value, free = counter - 1)"]
